@@ -141,24 +141,69 @@ def is_aux(name: str) -> bool:
     return bool(_AUX.search(name))
 
 
+def snapshot_driver() -> Optional[Path]:
+    """copy the freshly built driver (under the build lock) so that a concurrent relink cannot hit a running check"""
+    import shutil
+    if not DRIVER.exists():
+        return None
+    d = OUT / "bin"
+    d.mkdir(parents=True, exist_ok=True)
+    dst = d / f"driver-{os.getpid()}"
+    lock = open(LEAN / ".build.lock", "w")
+    fcntl.flock(lock, fcntl.LOCK_EX)
+    try:
+        shutil.copy2(DRIVER, dst)
+    finally:
+        fcntl.flock(lock, fcntl.LOCK_UN)
+        lock.close()
+    return dst
+
+
+def import_closure(prop: str) -> List[str]:
+    """Lean source files (relative to lean/) that PdProps.<prop> depends on"""
+    seen: List[str] = []
+    todo = [f"PdProps/{prop}.lean"]
+    while todo:
+        f = todo.pop()
+        if f in seen or not (LEAN / f).exists():
+            continue
+        seen.append(f)
+        for m in re.finditer(r"^import\s+((?:PdModel|PdProps|Generated)[\w.]*)", (LEAN / f).read_text(), re.M):
+            todo.append(m.group(1).replace(".", "/") + ".lean")
+    return seen
+
+
 class ModelDriver:
     """Runs the compiled Lean model over a batch of request lines."""
 
     def __init__(self) -> None:
         self.lines_run = 0
+        self.binary: Optional[Path] = None
 
     def run(self, lines: Sequence[str], timeout: int = 900) -> List[str]:
         if not lines:
             return []
-        if not DRIVER.exists():
-            raise Infra("model driver missing: " + str(DRIVER))
+        binary = self.binary or DRIVER
+        if not binary.exists():
+            raise Infra("model driver missing: " + str(binary))
         for l in lines:
             if "\n" in l:
                 raise Infra("newline in request line")
-        p = subprocess.run([str(DRIVER)], input="\n".join(lines) + "\n", stdout=subprocess.PIPE,
-                           stderr=subprocess.PIPE, text=True, timeout=timeout)
-        if p.returncode != 0:
-            raise Infra("model driver failed: " + p.stderr[-500:])
+        last = ""
+        for attempt in range(3):
+            try:
+                p = subprocess.run([str(binary)], input="\n".join(lines) + "\n", stdout=subprocess.PIPE,
+                                   stderr=subprocess.PIPE, text=True, timeout=timeout)
+            except OSError as e:
+                last = str(e)
+                time.sleep(3)
+                continue
+            if p.returncode == 0:
+                break
+            last = p.stderr[-500:]
+            time.sleep(3)
+        else:
+            raise Infra("model driver failed: " + last)
         out = p.stdout.split("\n")
         if out and out[-1] == "":
             out.pop()
